@@ -11,6 +11,8 @@ pub assume_specification<A: std::alloc::Allocator>[ <Vec<u8, A> as std::io::Writ
     ensures r is Ok, final(this)@ == old(this)@ + buf@;
 pub assume_specification<T> [<[T]>::reverse] (s: &mut [T]) ensures final(s)@ == old(s)@.reverse();
 #[verifier::external_body] pub fn u16_from_be_bytes(b: [u8; 2]) -> (r: u16) ensures r == u16of(b@[0], b@[1]) { u16::from_be_bytes(b) }
+#[verifier::external_body] pub fn u16_from_le_bytes(b: [u8; 2]) -> (r: u16) ensures r == u16of(b@[1], b@[0]) { u16::from_le_bytes(b) }
+#[verifier::external_body] pub fn u16_from_ne_bytes(b: [u8; 2]) -> (r: u16) ensures r == u16of(b@[1], b@[0]) { u16::from_ne_bytes(b) }   // A-RUSTC: little-endian target
 #[verifier::external_body] pub fn u8_from_be_bytes(b: [u8; 1]) -> (r: u8) ensures r == b@[0] { u8::from_be_bytes(b) }
 /// `.to_be_bytes()` on u8 / u16 / U256 (declared substitution `.to_be_bytes()` -> `.to_be_bytes_v()`)
 pub trait ToBeV { type Out; spec fn be_spec(&self) -> Seq<u8>; fn to_be_bytes_v(&self) -> (r: Self::Out); }
@@ -20,6 +22,11 @@ impl ToBeV for u16 { type Out = [u8; 2]; open spec fn be_spec(&self) -> Seq<u8> 
     #[verifier::external_body] fn to_be_bytes_v(&self) -> (r: [u8; 2]) ensures r@ == be16(*self) { self.to_be_bytes() } }
 impl ToBeV for U256 { type Out = [u8; 32]; open spec fn be_spec(&self) -> Seq<u8> { be_bytes(self@) }
     #[verifier::external_body] fn to_be_bytes_v(&self) -> (r: [u8; 32]) ensures r@ == be_bytes(self@) { unimplemented!() } }
+pub trait ToLeV { type Out; fn to_le_bytes_v(&self) -> (r: Self::Out); }
+impl ToLeV for u16 { type Out = [u8; 2];
+    #[verifier::external_body] fn to_le_bytes_v(&self) -> (r: [u8; 2]) ensures r@ == be16(*self).reverse() { self.to_le_bytes() } }
+impl ToLeV for U256 { type Out = [u8; 32];
+    #[verifier::external_body] fn to_le_bytes_v(&self) -> (r: [u8; 32]) ensures r@ == be_bytes(self@).reverse() { unimplemented!() } }
 impl U256 {
     /// little-endian bytes = big-endian of the reversed string
     #[verifier::external_body] pub fn from_le_bytes(b: [u8; 32]) -> (o: U256) ensures o@ == be_value(b@.reverse()) { unimplemented!() }
